@@ -103,6 +103,24 @@ PROPS = {
         "assumptions": ["decimal -> f64 -> decimal ({:.N} printing) is the identity when integer digits + printed decimals <= 15; outside that region only the oracle speaks (finding class f64-precision)",
                         "str::parse::<f64> on a plain decimal returns the correctly rounded value"],
     },
+    "C14": {
+        "streams": ["c14"],
+        "driver": True,
+        "extractors": ["T3"],
+        "instances": lambda gen: sum(len(e.get("variants", [])) + 1 for e in gen.get("enums", [])),
+        "rule": "all 25 option enums (29 family names through 8 aliases) x contents drawn from the library's own spellings of every option of "
+                "that field number plus 20 hand-written ambiguous contents (a name shaped like a BIC, an account shaped like a numbered line, "
+                "content valid for several options, empty) x 13 letters (family and foreign, and none): parse_with_variant must return the "
+                "variant named by the letter or fail; parse without letter must return a variant whose own parser gives the same value and "
+                "that re-parses from its serialisation; each (content, letter) also inside a message position through "
+                "MessageParser::parse_variant_field / parse_optional_variant_field, compared with the compiled Lean model (the enum's verdict as "
+                "sidecar). distinct = (enum, letter, content)",
+        "modelled": "MessageParser::parse_variant_field / parse_optional_variant_field including the written-back-tag check, for an arbitrary "
+                    "enum; the 25 enum declarations and their parse_with_variant arms are regenerated (T3); the content heuristics of the "
+                    "enums' parse() are exercised by the oracle, not modelled",
+        "trusted_base": [KERNEL, TRANSLATOR, HARNESS, MODEL_KERNEL],
+        "assumptions": ["to_swift_string of an enum delegates to the wrapped struct, whose tag is the struct's letter (translator compares variant letter and struct letter)"],
+    },
     "C16": {
         "streams": ["c16"],
         "driver": True,
